@@ -52,6 +52,12 @@ def gen(rng, tier):
             gb1 = [rng.choice(cols) for _ in range(rng.choice([1, 1, 2, 3]))]
             gb2 = [] if rng.random() < 0.4 else [rng.choice(cols) for _ in range(rng.choice([1, 2]))]
             w, m = rng.choice(dp.WRITERS), rng.choice(dp.MODES)
+            if qn == 1:
+                # on a handle with an LRU cache, the second tree differing from the first below
+                # an operator only (what a loop over values does to a reused query)
+                m = "cached"
+                e1 = ("A", [leaves[0], ("O", [leaves[1 % len(leaves)], leaves[2 % len(leaves)]])]) if leaves else e1
+                e2 = ("A", [leaves[0], ("O", [leaves[1 % len(leaves)], leaves[-1]])]) if leaves else e2
             mid = "%s.m%d" % (base, qn)
             enc = lambda gb: "GB %d%s" % (len(gb), "".join(" " + core.enc_str(c) for c in gb))
             lines.append("QMOD %s %s %s %s %s %s THEN %s %s" % (mid, dss[0].did, w, m, dp.enc_expr(e1), enc(gb1), dp.enc_expr(e2), enc(gb2)))
